@@ -2213,7 +2213,7 @@ fn shape_of(file: &str, msg: &str) -> String {
 
 fn panic_signature(t: &str, f: &str, stage: &str, file: &str, msg: &str) -> String {
     let object = target_object(t);
-    let in_repo = file.starts_with("/repo/");
+    let in_repo = in_repo(file);
     // an allocation sized by an untrusted length that exceeds isize::MAX panics instead of
     // allocating: same root cause as the Alloc verdict
     if !in_repo && msg == "capacity overflow" {
